@@ -356,8 +356,17 @@ func (r *Run) Finish() int {
 		path = filepath.Join(Root, "evidence", r.Prop+".json")
 	}
 	os.MkdirAll(filepath.Dir(path), 0o755)
-	b, _ := json.MarshalIndent(ev, "", " ")
-	if err := os.WriteFile(path, b, 0o644); err != nil {
+	b, merr := json.MarshalIndent(ev, "", " ")
+	if merr != nil || len(b) == 0 {
+		fmt.Fprintln(os.Stderr, "cannot encode evidence:", merr)
+		return 2
+	}
+	// written to a temporary file first and renamed: a reader never sees half an evidence file
+	if err := os.WriteFile(path+".tmp", b, 0o644); err != nil {
+		fmt.Fprintln(os.Stderr, "cannot write evidence:", err)
+		return 2
+	}
+	if err := os.Rename(path+".tmp", path); err != nil {
 		fmt.Fprintln(os.Stderr, "cannot write evidence:", err)
 		return 2
 	}
